@@ -630,8 +630,12 @@ protected:
                          , png_size_t length
                          )
     {
-        static_cast<Device*>(png_get_io_ptr(png_ptr) )->read( data
-                                                            , length );
+        // libpng expects exactly length bytes; the rest of the buffer is not initialised
+        if( static_cast<Device*>(png_get_io_ptr(png_ptr) )->read( data
+                                                                , length ) != length )
+        {
+            png_error( png_ptr, "Read Error" );
+        }
     }
 
     static void flush( png_structp png_ptr )
